@@ -1,0 +1,31 @@
+//! C36 (large-object treadmill): read-only accessors of `TreadMill`'s private sets and of its
+//! crate-private object enumeration.  No behaviour of their own.
+
+use crate::util::object_enum::ObjectEnumerator;
+pub use crate::util::treadmill::TreadMill;
+use crate::util::{Address, ObjectReference};
+
+/// Contents of the four treadmill sets: `[from_space, to_space, collect_nursery, alloc_nursery]`
+/// (each in unspecified order).
+pub fn treadmill_sets(t: &TreadMill) -> [Vec<ObjectReference>; 4] {
+    t.verif_sets()
+}
+
+struct Collecting(Vec<ObjectReference>);
+
+impl ObjectEnumerator for Collecting {
+    fn visit_object(&mut self, object: ObjectReference) {
+        self.0.push(object);
+    }
+    fn visit_address_range(&mut self, _start: Address, _end: Address) {
+        unreachable!("the treadmill enumerates objects, not address ranges")
+    }
+}
+
+/// Every object `TreadMill::enumerate_objects(_, all)` (crate-private) visits, in visiting order,
+/// with repetitions if it visits an object more than once.
+pub fn treadmill_enumerate_objects(t: &TreadMill, all: bool) -> Vec<ObjectReference> {
+    let mut e = Collecting(vec![]);
+    t.enumerate_objects(&mut e, all);
+    e.0
+}
